@@ -374,6 +374,8 @@ public:
 			ar.swap(tmp);
 		}
 		catch(std::bad_alloc const &) {
+			// the new value can't be kept, make sure the old one is not served instead of it
+			remove(key);
 			return;
 		}
 
